@@ -12,6 +12,11 @@
 //     close,<h>  hstat,<h>  hreaddir,<h>  hsync,<h>
 //     mkdir,<path>  rename,<old>,<new>  remove,<path>  removeall,<path>  stat,<path>
 //     readdir,<path>  flush,<path>,<0|1>  sync
+//     hold     every PutB started from now on stays "in flight" (blocks before the block is stored)
+//     release  all in-flight PutBs complete; the driver then waits for the flush goroutines
+//   A case that contains `hold` is an ASYNC case: flush completions are delayed across operations, so
+//   segment shapes depend on when they land; for such a case no shapes are printed at all (only the
+//   abstract results are compared). sync/hsync release first (MarshalManifest waits for prunes).
 // Result line: "load=<ok|err>" then one result per op joined by ';'. A result is
 //   <fields joined by ','>[#<shape>[|<shape>...]]
 // where a shape is  [<path>=]R<repacked>:Z<size>:<seg+seg+...>[:P<off>.<segIdx>.<segOff>.<repacked>]
@@ -38,6 +43,26 @@ type verifC08Keep struct {
 	mtx    sync.Mutex
 	blocks map[string][]byte
 	puts   int
+	held   bool
+	gate   chan struct{}
+}
+
+func (k *verifC08Keep) hold() {
+	k.mtx.Lock()
+	defer k.mtx.Unlock()
+	if !k.held {
+		k.held = true
+		k.gate = make(chan struct{})
+	}
+}
+
+func (k *verifC08Keep) release() {
+	k.mtx.Lock()
+	defer k.mtx.Unlock()
+	if k.held {
+		k.held = false
+		close(k.gate)
+	}
 }
 
 func (k *verifC08Keep) ReadAt(locator string, p []byte, off int) (int, error) {
@@ -59,6 +84,12 @@ func (k *verifC08Keep) ReadAt(locator string, p []byte, off int) (int, error) {
 func (k *verifC08Keep) PutB(p []byte) (string, int, error) {
 	buf := append([]byte(nil), p...)
 	loc := fmt.Sprintf("%x+%d", md5.Sum(buf), len(buf))
+	k.mtx.Lock()
+	held, gate := k.held, k.gate
+	k.mtx.Unlock()
+	if held {
+		<-gate
+	}
 	k.mtx.Lock()
 	defer k.mtx.Unlock()
 	k.blocks[loc[:32]] = buf
@@ -162,6 +193,8 @@ func verifC08Shape(fn *filenode, fh *filehandle) string {
 }
 
 type verifC08State struct {
+	kc      *verifC08Keep
+	async   bool // case contains `hold`: no shapes
 	fs      CollectionFileSystem
 	handles map[string]*filehandle
 	// every filenode ever seen through a handle (orphans keep flushing in the background too)
@@ -192,6 +225,13 @@ func (st *verifC08State) walk(n inode, path string, f func(path string, fn *file
 
 // quiesce blocks until no background flush goroutine is pending on any file.
 func (st *verifC08State) quiesce() {
+	st.kc.mtx.Lock()
+	held := st.kc.held
+	st.kc.mtx.Unlock()
+	if held {
+		// flush goroutines are parked in PutB on purpose
+		return
+	}
 	for round := 0; round < 3; round++ {
 		st.walk(st.fs.rootnode(), ".", func(_ string, fn *filenode) { fn.waitPrune() })
 		for fn := range st.seen {
@@ -200,7 +240,17 @@ func (st *verifC08State) quiesce() {
 	}
 }
 
+func (st *verifC08State) withAll(res string) string {
+	if st.async {
+		return res
+	}
+	return res + "#" + st.allShapes()
+}
+
 func (st *verifC08State) allShapes() string {
+	if st.async {
+		return ""
+	}
 	var out []string
 	st.walk(st.fs.rootnode(), ".", func(path string, fn *filenode) {
 		out = append(out, path+"="+verifC08Shape(fn, nil))
@@ -269,7 +319,7 @@ func (st *verifC08State) op(op string) string {
 	a := strings.Split(op, ",")
 	withShape := func(res string, fh *filehandle) string {
 		st.quiesce()
-		if fh != nil {
+		if fh != nil && !st.async {
 			if fn, ok := fh.inode.(*filenode); ok {
 				return res + "#" + verifC08Shape(fn, fh)
 			}
@@ -381,14 +431,22 @@ func (st *verifC08State) op(op string) string {
 			return verifC08Err(err)
 		}
 		return verifC08Listing(fis)
+	case a[0] == "hold" && len(a) == 1:
+		st.kc.hold()
+		return "ok"
+	case a[0] == "release" && len(a) == 1:
+		st.kc.release()
+		st.quiesce()
+		return "ok"
 	case a[0] == "hsync" && len(a) == 2:
 		fh := handle()
 		if fh == nil {
 			return "nohandle"
 		}
+		st.kc.release()
 		err := fh.Sync()
 		st.quiesce()
-		return verifC08Err(err) + "#" + st.allShapes()
+		return st.withAll(verifC08Err(err))
 	case a[0] == "mkdir" && len(a) == 2:
 		return verifC08Err(st.fs.Mkdir(verifC08Path(a[1]), 0755))
 	case a[0] == "rename" && len(a) == 3:
@@ -417,11 +475,12 @@ func (st *verifC08State) op(op string) string {
 	case a[0] == "flush" && len(a) == 3:
 		err := st.fs.Flush(verifC08Path(a[1]), a[2] == "1")
 		st.quiesce()
-		return verifC08Err(err) + "#" + st.allShapes()
+		return st.withAll(verifC08Err(err))
 	case a[0] == "sync" && len(a) == 1:
+		st.kc.release()
 		err := st.fs.Sync()
 		st.quiesce()
-		return verifC08Err(err) + "#" + st.allShapes()
+		return st.withAll(verifC08Err(err))
 	}
 	return "bad-op"
 }
@@ -470,9 +529,11 @@ func verifC08Case(line string) (out string) {
 	if err != nil || max < 1 {
 		return "bad-op"
 	}
-	saved := maxBlockSize
+	saved, savedCW := maxBlockSize, concurrentWriters
 	maxBlockSize = max
-	defer func() { maxBlockSize = saved }()
+	// in-flight PutBs of an ASYNC case must never exhaust the throttle (the writer would block for ever)
+	concurrentWriters = 1 << 20
+	defer func() { maxBlockSize, concurrentWriters = saved, savedCW }()
 	kc := &verifC08Keep{blocks: map[string][]byte{}}
 	txt, ok := verifC08Manifest(f[2], kc)
 	if !ok {
@@ -483,8 +544,14 @@ func verifC08Case(line string) (out string) {
 	if err != nil {
 		return "load=err"
 	}
-	st := &verifC08State{fs: fs, handles: map[string]*filehandle{}, seen: map[*filenode]bool{}}
-	res := []string{"load=ok#" + st.allShapes()}
+	st := &verifC08State{kc: kc, fs: fs, handles: map[string]*filehandle{}, seen: map[*filenode]bool{}}
+	for _, op := range strings.Split(f[3], ";") {
+		if op == "hold" {
+			st.async = true
+		}
+	}
+	defer kc.release()
+	res := []string{st.withAll("load=ok")}
 	if f[3] != "-" {
 		for _, op := range strings.Split(f[3], ";") {
 			r := st.op(op)
@@ -494,6 +561,7 @@ func verifC08Case(line string) (out string) {
 			res = append(res, r)
 		}
 	}
+	kc.release()
 	st.quiesce()
 	return strings.Join(res, ";")
 }
